@@ -95,6 +95,32 @@ def ekf(env):
     env.safe('defined', xp, Pp)
 
 
+@obligation('C13.noise_registration', functions=[f'{EKFM}:EKF.set_uncertainty', f'{EKFM}:EKF.Q', f'{EKFM}:EKF.R', f'{EKFM}:EKF.__init__', f'{EKFM}:EKF.forward'], tol=1e-7, timeout=300)
+def noise_registration(env):
+    """the noise covariances the filters compute with are the ones the caller registered LAST: set_uncertainty(Q=..) / (R=..) / (Q, R) each
+    replace exactly what they are given and keep the other (inherited by UKF and PF); a step without per-call Q, R then is the Kalman step
+    for the registered pair, a per-call pair wins over the registered one"""
+    ek = env.load(EKFM); T = env.T
+    model, sysm, x, u, y, P, Qn, Rn = setup(env)
+    Q2, _ = spd2(env, 'Q2'); R2 = (env.scalar('r2', positive=True, regimes=('generic',)) ** 2).reshape(1, 1)
+    f = ek.EKF(model, Q=Qn, R=Rn)
+    f.set_uncertainty(R=R2)
+    env.eq('set_uncertainty(R=R2): R is R2', f.R, R2); env.eq('set_uncertainty(R=R2): Q is kept', f.Q, Qn)
+    f.set_uncertainty(Q=Q2)
+    env.eq('set_uncertainty(Q=Q2): Q is Q2', f.Q, Q2); env.eq('set_uncertainty(Q=Q2): R is kept', f.R, R2)
+    xp, Pp = f(x, y, u, P)
+    xm, Pm, xs, Ps = kalman(T, sysm, x, P, u, y, Q2, R2)
+    env.eq('a step without per-call noise uses the registered pair: covariance', Pp, Ps)
+    env.eq('a step without per-call noise uses the registered pair: mean', xp, xs)
+    f.set_uncertainty(Qn, Rn)
+    env.eq('set_uncertainty(Q, R): both replaced (Q)', f.Q, Qn); env.eq('set_uncertainty(Q, R): both replaced (R)', f.R, Rn)
+    xq, Pq = f(x, y, u, P, Q2, R2)
+    env.eq('a per-call pair wins over the registered one', Pq, Ps)
+    g = ek.EKF(model)
+    g.set_uncertainty(R=Rn)
+    env.eq('registering R alone on a filter built without noise', g.R, Rn)
+
+
 @obligation('C13.UKF.linear', functions=[f'{UKFM}:UKF.forward', f'{UKFM}:UKF.sigma_weight_points', f'{UKFM}:UKF.compute_cov'], tol=1e-7, timeout=300, max_paths=16)
 def ukf(env):
     uk = env.load(UKFM); T = env.T
